@@ -103,8 +103,15 @@ func New(id, tier string) *Check {
 	return c
 }
 
-// Quick reports whether the tier is quick.
-func (c *Check) Quick() bool { return c.Tier != "thorough" }
+// FullBoundsInQuick lists the checks whose complete ("thorough") bounds cost under a minute: their
+// quick tier runs those bounds too, and their thorough tier goes one step deeper (Deep).
+var FullBoundsInQuick = map[string]bool{"C02": true, "C03": true, "C04": true, "C06": true, "C07": true, "C09": true, "C15": true, "C16": true, "C19": true, "C20": true}
+
+// Quick reports whether the reduced bounds of the quick tier apply.
+func (c *Check) Quick() bool { return c.Tier != "thorough" && !FullBoundsInQuick[c.ID] }
+
+// Deep reports whether the extra depth of the thorough tier of a FullBoundsInQuick check applies.
+func (c *Check) Deep() bool { return c.Tier == "thorough" && FullBoundsInQuick[c.ID] }
 
 // SetBudget sets an internal wall-clock budget; when exceeded, enumeration loops that poll
 // OverBudget stop early and the run is reported exhaustive:false (never a failure).
